@@ -566,26 +566,39 @@ def oracle_fit(case, base, scaled, shuffled, refit=None, regular=True):
             ok = close(other["beta"], base["beta"], 2 * rb) and close(other["alpha"], base["alpha"], 2 * ra)
         if not ok:
             what = (f"weights*{case['scale']!r}" if name == "scale" else "jointly shuffled data and weights" if name == "order"
-                    else "the same object fitted to other data first")
+                    else "a second fit of the same object to the same data")
             bad.append((name + "_invariance", f"{what}: alpha,beta,delta = {other['alpha']!r},{other['beta']!r},"
                         f"{other['delta']!r} vs {base['alpha']!r},{base['beta']!r},{base['delta']!r}"))
     return bad
 
 
 FREE_DELTA_RTOL = 2e-5
-NO_MINIMISER = "reference x-space error still decreasing in delta at delta = 1000: no minimiser in the plausible range"
+NO_MINIMISER = ("reference x-space error has no interior minimiser for delta in [0.05, 1000]: still falling at an end of the "
+                "range in which it is finite")
 
 
 def delta_profile_class(case):
-    """a property of the INPUT (data + weights) only: the reference error on a logarithmic grid of delta in [0.05, 1000];
-    if it is still falling at the upper end there is no local minimiser for the search to return (heavy-tailed /
-    log-normal-like samples: the exponentiated Weibull fit degenerates, delta runs away)"""
+    """a property of the INPUT (data + weights) only: the reference error on a logarithmic grid of delta in [0.05, 1000]
+    (refined next to the point where it stops being finite: for small delta p**(1/delta) underflows).  If the smallest
+    value sits at an end of the finite range there is no local minimiser for the search to return (upper end: heavy-tailed
+    / log-normal-like samples, delta runs away; lower end: very concentrated samples, the error falls until the transform
+    breaks down)."""
     grid = [0.05 * (1000 / 0.05) ** (i / 14.0) for i in range(15)]
     errs = [ref_error(case["data"], case["weights"], d) for d in grid]
-    fin = [(e, d) for e, d in zip(errs, grid) if math.isfinite(e)]
+    fin = [k for k, e in enumerate(errs) if math.isfinite(e)]
     if len(fin) < 3:
-        return "undefined"
-    return "no_minimiser_below_1000" if min(fin)[1] == fin[-1][1] and fin[-1][0] < fin[-2][0] else "regular"
+        return "no_interior_minimiser"
+    pts = [(errs[k], grid[k]) for k in fin]
+    if fin[0] > 0:
+        lo, hi = grid[fin[0] - 1], grid[fin[0]]
+        for t in range(1, 12):
+            d = lo * (hi / lo) ** (t / 12.0)
+            e = ref_error(case["data"], case["weights"], d)
+            if math.isfinite(e):
+                pts.append((e, d))
+    best = min(pts)[1]
+    ds = sorted(d for _, d in pts)
+    return "no_interior_minimiser" if best in (ds[0], ds[-1]) else "regular"
 
 
 def free_delta_gap(case, delta):
@@ -622,8 +635,7 @@ def observe_free_delta(case, base):
 
 
 def refit_variant(case):
-    """object re-use: the same object fitted to OTHER data first (the jointly shuffled first half of the sample, scaled),
-    then to the case's data"""
+    """object re-use with history: OTHER data (half of the sample, scaled by 1.5) the same object is fitted to first"""
     data = np.array(case["data"], dtype=float)
     rng = np.random.default_rng(case["perm_seed"] + 1)
     idx = rng.permutation(len(data))[: max(10, len(data) // 2)]
@@ -658,11 +670,22 @@ def process_fits(ck, cases):
         sc, sh = variants(case)
         scaled = run_fit(sc[0], sc[1], case["delta"], case["delta0"], case["method"], cont) if sc else None
         shuffled = run_fit(sh[0], sh[1], case["delta"], case["delta0"], case["method"], cont) if sh else None
-        refit = None
+        refit = hist = None
         if "err" not in base:
+            # the same object fitted twice to the same data: same result (free delta: within optimiser tolerance, the
+            # second search starts at the first result)
             refit = run_fit(case["data"], case["weights"], case["delta"], case["delta0"], case["method"], cont,
-                            before=refit_variant(case))
-        impls.append((base, scaled, shuffled, refit))
+                            before=(case["data"], case["weights"]))
+            # ... and fitted to OTHER data first: with a free delta the search starts where the other data left the
+            # object; the property does not say what then has to come out: counted, no verdict (fixed delta: verdict)
+            hist = run_fit(case["data"], case["weights"], case["delta"], case["delta0"], case["method"], cont,
+                           before=refit_variant(case))
+            if case["delta"] is None:
+                same = "err" not in hist and close(hist["delta"], base["delta"], 2e-3) and close(hist["beta"], base["beta"], 2e-2)
+                ck.count("observed_no_verdict:free_delta_refit_after_other_data:"
+                         + ("nonfinite" if "err" in hist else "same_result" if same else "other_result"))
+                hist = None
+        impls.append((base, scaled, shuffled, refit, hist))
         dl = None if "err" in base and "delta" not in base else base.get("delta")
         if case["delta"] is not None:
             dl = case["delta"]
@@ -671,7 +694,7 @@ def process_fits(ck, cases):
         nl.append(k)
     ans = ck.driver.run(lines)
     pos = 0
-    for case, (base, scaled, shuffled, refit), k in zip(cases, impls, nl):
+    for case, (base, scaled, shuffled, refit, hist), k in zip(cases, impls, nl):
         a_prep = ans[pos]
         a_fit = ans[pos + 1] if k == 2 else None
         pos += k
@@ -696,6 +719,10 @@ def process_fits(ck, cases):
             ck.count("refit_same_object")
         profile = delta_profile_class(case) if case["delta"] is None and "err" not in base else "regular"
         bad = [(pred, detail, {}) for pred, detail in oracle_fit(case, base, scaled, shuffled, refit, profile == "regular")]
+        if hist is not None:  # fixed delta: the closed form has no memory
+            bad += [(pred, "the object was fitted to OTHER data in between: " + detail, {})
+                    for pred, detail in oracle_fit(case, base, None, None, hist)
+                    if pred == "refit_invariance"]
         if case["delta"] is None and "err" not in base:
             ck.count("free_delta_profile=" + profile)
             # a free delta is a local minimiser of the weighted quantile error in x-space: the harness' own error function,
@@ -808,7 +835,10 @@ def main(ck):
         "corpus witnesses (DESIGN section 4 #5/#5b), then (A) random direct calls of _estimate_alpha_beta/_wlsq_error "
         f"(n 3..{nmax} log-uniform; Weibull values, ties, zeros, arbitrary p, weights over 12 decades) and (B) whole fits "
         f"(n 30..{nmax if thorough else 2000}; Weibull/lognormal/exponentiated-Weibull/gamma samples with ties and zeros; weights "
-        "None / 3 keywords / positive arrays; delta fixed and free; each with a scaled and a jointly shuffled variant). "
+        "None / 3 keywords (any letter case) / positive arrays, some with entries exactly 0; data and array weights as "
+        "ndarray / list / tuple; whole-number samples as int64 arrays with medians 20, 3e6, 5e9; method lsq / wlsq / LSQ / "
+        "WLSQ / Wlsq; delta fixed and free; each with a scaled and a jointly shuffled variant, a second fit of the same "
+        "object to the same data and a fit after the object was fitted to other data). "
         "Non-trivial: >= 3 retained points and a non-degenerate regression (A), >= 10 non-zero observations and a "
         "successful fit (B); distinct by SHA1 of the case"
     )
@@ -819,8 +849,14 @@ def main(ck):
         "the arguments reaching _estimate_alpha_beta are recorded by a wrapper installed inside the harness process",
     ]
     ck.partial = {
-        "free_delta_local_minimiser": "scipy.optimize.fmin's result is only observed: the reference x-space error must "
-                                      "not decrease by more than 1e-3 (relative) within +-1% / +-3% of the returned delta",
+        "free_delta_local_minimiser": "scipy.optimize.fmin's result is only observed: the harness' reference x-space error, "
+                                      "minimised by a bounded scalar search within a factor 1.3 of the returned delta, must "
+                                      "not get lower than at the returned delta by more than 2e-5 relative (and not by "
+                                      "more than 1e-3 at +-1% / +-3%); samples whose error has no interior minimiser in "
+                                      "delta are a known finding keyed on the input",
+        "object re-use": "second fit of the same object to the same data = same result (observed); free delta after the "
+                         "object was fitted to OTHER data: history-dependent by construction (search starts at the "
+                         "object's delta), counted without verdict",
     }
     process_direct(ck, list(direct_corpus()))
     process_fits(ck, list(fit_corpus()))
@@ -845,7 +881,10 @@ def replay(ck, payload):
         refit = None
         if "err" not in base:
             refit = run_fit(case["data"], case["weights"], case["delta"], case["delta0"], case["method"], cont,
-                            before=refit_variant(case))
+                            before=(case["data"], case["weights"]))
+            hist = run_fit(case["data"], case["weights"], case["delta"], case["delta0"], case["method"], cont,
+                           before=refit_variant(case))
+            print("same object fitted to other data first:", {k: v for k, v in hist.items() if k != "args"})
         print("fit:", {k: v for k, v in base.items() if k != "args"})
         profile = delta_profile_class(case) if case["delta"] is None and "err" not in base else "regular"
         bad = oracle_fit(case, base, scaled, shuffled, refit, profile == "regular")
